@@ -46,6 +46,14 @@ def gen(rng):
                     if r['target'] == old:
                         r['target'] = a['synsets'][0]['id']
         lexs.append(b)
+        if vs == '1.0' and rng.random() < 0.7:
+            # both exported lexicons have frames without id (the only kind a 1.0 document can carry)
+            for lx in (a, b):
+                if not any(e.get('frames') for e in lx.get('entries', [])):
+                    for e in lx.get('entries', []):
+                        if e.get('senses'):
+                            e['frames'] = [{'subcategorizationFrame': 'Somebody ----s something'}]
+                            break
     ops = [{'k': 'add', 'res': docs.resource(lexs, vs)}, {'k': 'obs'}]
     if rng.random() < 0.35:
         # another version of a:1 is installed side by side (same entity ids) but not exported
